@@ -698,6 +698,38 @@ def derived(run, fx, rule='DERIVED'):
                                  'into the old, freed block' % (D.split('::')[-1], B.split('::')[-1], fn.render(d), fn.render(r)[:60], fn.q, D.split('::')[-1]))
                 else:
                     run.held(rule, inst, fn.loc(r), 're-derived on every path from the realloc to the exit')
+    # ... and every OTHER function that derives the same member from the buffer uses the layout the reallocating function ends with
+    # (Machine::Code: the operands start one cell behind the instructions, `_code + (_instr_count + 1)`: the cell in between is the
+    # RET_ZERO sentinel; a second derivation `_code + _instr_count` reads every operand 8 bytes too low)
+    from . import linear
+    last = {}
+    sites = []
+    for fn in fx.all_fns():
+        if not fn.file.startswith('src/') or fn.f.get('implicit') or not fn.f.get('cls'):
+            continue
+        for _, e in fn.elements():
+            if e['k'] == 'BinaryOperator' and e['op'] == '=' and fn.strip(e['c'][0])['k'] == 'MemberExpr' and fn.render(fn.N(fn.strip(e['c'][0])['c'][0])) == 'this':
+                D = fn.strip(e['c'][0])['d']
+                if not D.startswith('graphite2::vm::Machine::Code::'):
+                    continue
+                form = linear.lin(fn, fn.strip_all_casts(fn.N(e['c'][1])), through_unsigned=True)
+                if 'this->_code' in form[0]:
+                    sites.append((fn, e, D, form))
+    realloc_fns = {fn.q for fn, e, D, form in sites if any((x.get('fq') or '') == 'realloc' for _, x in fn.elements())}
+    for fn, e, D, form in sites:
+        if fn.q in realloc_fns:
+            last[D] = (fn, e, form) if D not in last or e['ln'] > last[D][1]['ln'] else last[D]
+    for fn, e, D, form in sites:
+        if fn.q in realloc_fns or D not in last:
+            continue
+        n += 1
+        inst = '%s derives %s with the layout of %s' % (fn.q.split('graphite2::')[-1], D.split('::')[-1], last[D][0].q.split('::')[-1])
+        if (dict(form[0]), form[1]) == (dict(last[D][2][0]), last[D][2][1]):
+            run.held(rule, inst, fn.loc(e), fn.render(e))
+        else:
+            run.violated(rule, inst, fn.loc(e), '%s computes %s as `%s`, but %s lays the block out with `%s`: the two disagree by %d cell(s), so after this function has run every operand '
+                         'is read from the wrong place' % (fn.q.split('graphite2::')[-1], D.split('::')[-1], fn.render(fn.N(e['c'][1])), last[D][0].q.split('graphite2::')[-1],
+                                                             last[D][0].render(last[D][0].N(last[D][1]['c'][1])), abs(form[1] - last[D][2][1])))
     if n < 1:
         run.broken(rule, 'derived pointers', 'no member derived from a reallocated member buffer was found (Machine::Code::Code: _data from _code confirmed)')
 
